@@ -12,6 +12,9 @@ INT_TYPES = {'int', 'int8', 'int16', 'int32', 'int64', 'uint', 'uint8', 'uint16'
 STD_PKGS = {'bytes': 'bytes', 'io': 'io', 'big': 'math/big', 'errors': 'errors', 'fmt': 'fmt', 'strings': 'strings', 'sort': 'sort'}
 
 
+_SUBSEQ = {}
+
+
 class SpecError(Exception):
     pass
 
@@ -444,18 +447,26 @@ class Ev:
             self.st.assume(z3.ForAll([aa, oo, kk], z3.Select(f(aa, oo), kk) == z3.Select(aa, oo + kk),
                                      patterns=[z3.Select(f(aa, oo), kk)]))
             return Val('string', {('s',): f(arr, off), ('n',): n})
-        # one name per (row, offset) and state: two views of the same bytes are the same term
-        cache = self.st.subcache
-        ck = (arr.get_id(), z3.simplify(off).get_id())
-        hit = cache.get(ck)
-        if hit is not None:
-            return Val('string', {('s',): hit[0], ('n',): n})
-        a = z3.Const(fresh_name('sub'), z3.ArraySort(I, I))
-        k = z3.Int(fresh_name('k'))
-        ax = z3.ForAll([k], z3.Select(a, k) == z3.Select(arr, off + k))
-        self.st.assume(ax)
-        cache[ck] = (a, arr, off)
-        return Val('string', {('s',): a, ('n',): n})
+        # one name per (row, offset), in every state: two views of the same bytes are the same
+        # term (the constant is a definitional extension, its axiom is assumed wherever it is used;
+        # the cache keeps the terms alive so that their ids stay unique)
+        offs = z3.simplify(off)
+        ck = (arr.get_id(), offs.get_id())
+        hit = _SUBSEQ.get(ck)
+        if hit is None:
+            a = z3.Const(fresh_name('sub'), z3.ArraySort(I, I))
+            k = z3.Int(fresh_name('k'))
+            j = z3.Int(fresh_name('j'))
+            # both directions, each triggered by the read it explains: sub[k] and row[j]
+            try:
+                ax = z3.And(z3.ForAll([k], z3.Select(a, k) == z3.Select(arr, off + k), patterns=[z3.Select(a, k)]),
+                            z3.ForAll([j], z3.Select(arr, j) == z3.Select(a, j - off), patterns=[z3.Select(arr, j)]))
+            except z3.Z3Exception:
+                # the row is a conditional term: not usable as a trigger
+                ax = z3.ForAll([k], z3.Select(a, k) == z3.Select(arr, off + k))
+            hit = _SUBSEQ[ck] = (a, arr, offs, ax)
+        self.st.assume(hit[3])
+        return Val('string', {('s',): hit[0], ('n',): n})
 
     def to_seq(self, x):
         """byte sequence view (type string) of a []byte / [N]byte / string"""
